@@ -713,6 +713,14 @@ class BzrFastExporter:
             changes.renamed, changes.removed, tree_new.get_revision_id(), tree_old
         )
 
+        # A file or symlink that becomes a directory has to go first:
+        # nothing else removes it when the directory is empty or the stream
+        # is plain, and the importer cannot turn it into a directory that
+        # receives more than one new or renamed item.
+        for change in changes.kind_changed:
+            if change.kind[1] == "directory":
+                yield commands.FileDeleteCommand(change.path[0].encode("utf-8"))
+
         yield from file_cmds
 
         # Map kind changes to a delete followed by an add
